@@ -17,7 +17,7 @@ ASSUMPTIONS = ["real thread schedules and the hardware memory model are not exhi
                "race detector sample schedules, they do not enumerate them", "allocation succeeds"]
 
 THR_CFGS = ("p=IDS,respdecomp=0,urlenc=1", "p=IIS_6_0,respdecomp=0,urlenc=1,mpart=1", "p=APACHE_2,respdecomp=1,cookies=1", "respdecomp=1,reqdecomp=1,urlenc=1",
-            "p=IIS_5_1,respdecomp=0,urlenc=1,u8best=1")
+            "p=IIS_5_1,respdecomp=0,urlenc=1,u8best=1", "respdecomp=1,lzmalayers=0")
 
 
 def thr_groups(ctx):
@@ -33,9 +33,13 @@ def thr_groups(ctx):
     for gi in range(6 if ctx.tier == "quick" else 48):
         K = rng.randint(2, 8)
         cfg = THR_CFGS[gi % len(THR_CFGS)]
+        if "lzmalayers=0" in cfg:
+            K = max(K, 3)
         streams = []
         for k in range(K):
             kind = rng.random()
+            if "lzmalayers=0" in cfg and k < 3:
+                kind = 0.0          # at least three parsers of that group meet the switched-off coding
             if kind < 0.6:
                 path = b"/" + b"".join(rng.choice(wide) * rng.randint(1, 2) if rng.random() < 0.6 else rng.choice(toks) for _ in range(rng.randint(1, 5)))
                 path = path.replace(b" ", b"%20").replace(b"\r", b"%0d").replace(b"\n", b"%0a").replace(b"\x00", b"%00").replace(b"\t", b"%09")
@@ -46,7 +50,10 @@ def thr_groups(ctx):
                      b" HTTP/1.1\r\nHost: h%d.example:80%d\r\n" % (k, k) + auth + b"\r\nCookie: a=%d; b=c\r\nContent-Type: application/x-www-form-urlencoded\r\n"
                      b"Content-Length: %d\r\n\r\n" % (k, len(body)) + body)
                 pl = b"payload %d " % k * rng.randint(1, 60)
-                if rng.random() < 0.5:
+                if "lzmalayers=0" in cfg and (k < 3 or rng.random() < 0.7):
+                    # a coding the configuration has switched off: every parser reports that (a log message) on its own
+                    S = b"HTTP/1.1 200 OK\r\nContent-Encoding: lzma\r\nContent-Length: %d\r\n\r\n" % len(pl) + pl
+                elif rng.random() < 0.5:
                     z = gzip.compress(pl)
                     S = b"HTTP/1.1 200 OK\r\nContent-Encoding: gzip\r\nContent-Length: %d\r\n\r\n" % len(z) + z
                 else:
